@@ -38,6 +38,8 @@ TECHNIQUE = 'static analysis: error-site table, push/pop pairing under path fact
 EXPLANATION = __doc__
 
 INTERP = 'pcbasic/basic/interpreter.py'
+STMT = 'pcbasic/basic/parser/statements.py'
+CS = 'pcbasic/basic/base/codestream.py'
 
 ERROR_SITES = {
     'NEXT_WITHOUT_FOR': {'Interpreter._find_next', 'Interpreter.iterate_loop'},
@@ -170,6 +172,42 @@ def check(ctx, rep):
     unp = [n for n in own_nodes(it) if isinstance(n, ast.Assign) and isinstance(n.targets[0], ast.Tuple) and 'self.for_stack[' in norm(n.value)]
     rep.ob('direction.same-sign-record', 'iterate_loop unpacks the frame in the order for_ packed it',
            len(unp) == 1 and [norm(e) for e in unp[0].targets[0].elts] == ['varname2', 'stop', 'step', 'sgn', 'forpos', 'nextpos'], '', ctx.where(it))
+    # ---- nesting counters ----------------------------------------------------------------
+    # ELSE matching in a single-line IF and FOR/NEXT (WHILE/WEND) block skipping both count nesting with a local
+    # counter that starts at 0: an opener adds one; a closer takes one off *iff the counter is above its initial
+    # value* and otherwise is the closer that was looked for
+    n_counters = 0
+    for spec, counter in ((STMT + ':Parser._parse_if', 'nesting_level'), (CS + ':TokenisedStream.skip_block', 'stack')):
+        fn = ctx.fn(spec)
+        flc = ctx.flow(fn)
+        inits = [a for a in own_nodes(fn) if isinstance(a, ast.Assign) and norm(a.targets[0]) == counter]
+        ups = [a for a in own_nodes(fn) if isinstance(a, ast.AugAssign) and norm(a.target) == counter]
+        ok0 = len(inits) == 1 and norm(inits[0].value) == '0' and all(norm(a.value) == '1' and isinstance(a.op, (ast.Add, ast.Sub)) for a in ups)
+        rep.ob('nesting.counter-shape', '%s: `%s` starts at 0 and moves in steps of one' % (fn.name, counter), ok0 and len(ups) >= 2, '', ctx.where(fn))
+        for a in ups:
+            if isinstance(a.op, ast.Sub):
+                n_counters += 1
+                facts = dict((f.text, f.pol) for f in flc.facts(a))
+                ok = facts.get('%s > 0' % counter) is True or facts.get('%s <= 0' % counter) is False
+                rep.ob('nesting.closer-threshold', '%s: `%s -= 1` happens exactly when the counter is above 0' % (fn.name, counter), ok,
+                       'guarded by %s: a closer of an inner block is taken for the one that ends the outer block (or the reverse)' % sorted(
+                           k for k in facts if counter in k), ctx.where(a))
+    rep.floor('nesting.closer-threshold', n_counters, 2, 'decrements of nesting counters')
+    sb = ctx.fn(CS + ':TokenisedStream.skip_block')
+    n_reads = 0
+    for blk_owner in ast.walk(sb):
+        for fld in ('body', 'orelse'):
+            b = getattr(blk_owner, fld, None)
+            if not isinstance(b, list):
+                continue
+            for i, st in enumerate(b):
+                if isinstance(st, ast.Expr) and norm(st.value) == 'self.read(1)':
+                    n_reads += 1
+                    nxt = b[i + 1] if i + 1 < len(b) else None
+                    rep.ob('nesting.consume-and-count', 'skip_block: a consumed block token is counted (read(1) is followed by a counter step)',
+                           isinstance(nxt, ast.AugAssign) and norm(nxt.target) == 'stack',
+                           'the token is consumed but the nesting count is not updated: a later closer is attributed to the wrong block', ctx.where(st))
+    rep.floor('nesting.consume-and-count', n_reads, 3, 'consumed block tokens')
     # ---- GOSUB stack --------------------------------------------------------
     ops = _stack_ops(rt, 'gosub_stack')
     pops = [n for o, n in ops if o == 'pop']
@@ -241,6 +279,10 @@ def variants(ctx):
         return lambda tree: f(mu.find_def(tree, 'Interpreter.' + fname))
 
     return [
+        Va('else-matching-off-by-one', 'break', STMT,
+           lambda tree: mu.replace_expr(mu.find_def(tree, 'Parser._parse_if'), mu.text_is('nesting_level > 0'), 'nesting_level > 1'), expect='nesting.closer-threshold'),
+        Va('next-list-not-counted', 'break', CS,
+           lambda tree: _drop_second_dec(mu.find_def(tree, 'TokenisedStream.skip_block')), expect='nesting.'),
         Va('next-zero-step-descending', 'break', INTERP,
            in_fn('iterate_loop', lambda fn: mu.replace_expr(fn, mu.text_is('sgn >= 0'), 'sgn > 0')), expect='direction.zero-step'),
         Va('for-zero-step-descending', 'break', INTERP,
@@ -287,3 +329,17 @@ def _push_first(fn):
     fn.body.remove(p)
     fn.body.insert(fn.body.index(j), p)
     return True
+
+
+def _drop_second_dec(fn):
+    decs = [a for a in ast.walk(fn) if isinstance(a, ast.AugAssign) and norm(a) == 'stack -= 1']
+    if len(decs) < 2:
+        return False
+    target = sorted(decs, key=lambda a: a.lineno)[-1]
+    for n in ast.walk(fn):
+        for fld in ('body', 'orelse'):
+            b = getattr(n, fld, None)
+            if isinstance(b, list) and target in b:
+                b.remove(target)
+                return True
+    return False
